@@ -220,6 +220,21 @@ PROPS = {
         note="document contents after a failed patch, removal of the whole document and pointers with invalid '~' escapes are not compared (unspecified by the statement)",
         assumptions=COMMON_ASSUMPTIONS,
     ),
+    "C17": dict(
+        level="model_checking",
+        runs=[dict(harness="c17", variant="san", shards=16)],
+        deadline=dict(quick=240, thorough=1800),
+        rule="every tree shape with up to the node bound over kinds {int leaf, null, array, object} (empty containers included); the callback is a choice point returning one of "
+             "CONTINUE, SKIP, POP, STOP, ERROR, 42: every assignment of codes to calls, enumerated by stateless DFS over choice vectors (the traversal determines the vector length), "
+             "with at most k non-CONTINUE answers for the larger trees; non-trivial = distinct tree",
+        bound=dict(quick="trees <= 5 nodes; all assignments for <= 3 nodes, <= 3 deviations beyond", thorough="trees <= 6 nodes; all assignments for <= 4 nodes, <= 4 deviations beyond"),
+        states_stat="cases", transitions_stat="runs",
+        technique="stateless exhaustive exploration of callback return-code assignments (choice points) on the real visitor, reference traversal as oracle",
+        claim="for every tree shape and every assignment of return codes within the bound, the exact sequence of calls (node, first/second visit, parent, key or index) and the final "
+              "result equal a 40-line reference traversal",
+        note="whether a container skipped on its first visit still receives its second call is left open by the statement and not compared",
+        assumptions=COMMON_ASSUMPTIONS,
+    ),
 }
 
 NOT_APPLICABLE = {}
